@@ -10,6 +10,12 @@
    Grapheme/line segmentation and width measurement are oracles: every theorem quantifies
    over arbitrary [measure], [remeasure], [trailing] and over arbitrary cluster lists.
 
+   State that survives between calls (a screen is never reset between drawing calls of a
+   frame): every theorem quantifies over an arbitrary well-formed screen, C11_sequence_clip
+   composes them over any sequence of calls through different windows, and the stream "seq"
+   of the differential run decides the property step by step on the screens observed before
+   and after each call (C11_sequence_predicate_sound).
+
    Not covered here: the rendering of screenNext to the terminal (C01).  On the level of
    glyphs (a wide cluster covers more than its cell) C11_text_no_overhang covers the text
    helpers on windows made by Vaxis.Window/New; for Window literals that are larger than
@@ -297,6 +303,52 @@ Theorem C11_observation_predicate_sound : forall c : case,
 Proof. exact agrees_core_holds. Qed.
 Print Assumptions C11_observation_predicate_sound.
 
+(* ---------------------------------------------------------------- sequences of calls *)
+
+(* State that survives between calls.  Any number of drawing calls, each through its own
+   window (any chains, any arguments, any texts and oracle answers), executed one after the
+   other on the same screen: no call panics, the screen keeps its shape, and a cell that lies
+   in the clip of none of the windows used is the same afterwards as before -- whatever the
+   earlier calls left on the screen (in particular: a wide cluster cut by a later window's
+   edge keeps its cell outside that window). *)
+Theorem C11_sequence_clip :
+  forall (measure : text -> Z) (remeasure : bool) (trailing : text -> bool)
+         (steps : list (window * op)) (s : screen),
+  WF s ->
+  exists s', run_seq_with measure remeasure trailing s steps = Some s' /\ WF s' /\ same_dims s s' /\
+    forall X Y, outside_all s steps X Y = true -> sget s' X Y = sget s X Y.
+Proof. intros measure remeasure trailing steps s; apply run_seq_clipped. Qed.
+Print Assumptions C11_sequence_clip.
+
+(* reading an observed screen back from the list of its cells that differ from the
+   background (the form in which the harness ships a screen) is faithful *)
+Theorem C11_observed_screen_faithful : forall (bg : cell) (s : screen) (x y : Z) (c : cell),
+  sget s x y = Some c -> obs_at bg (screen_diff bg s) x y = c.
+Proof. exact obs_at_screen_diff. Qed.
+Print Assumptions C11_observed_screen_faithful.
+
+(* ... and [changed_cells] of two such lists is exactly the set of cells in which the two
+   screens differ, with the new content *)
+Theorem C11_changed_cells_exact : forall (bg : cell) (s s' : screen) (x y : Z) (c : cell),
+  WF s -> WF s' -> same_dims s s' ->
+  (In (x, y, c) (changed_cells bg (scols s) (srows s) (screen_diff bg s) (screen_diff bg s')) <->
+   sget s' x y = Some c /\ exists c0, sget s x y = Some c0 /\ c0 <> c).
+Proof. exact changed_cells_screens. Qed.
+Print Assumptions C11_changed_cells_exact.
+
+(* The stream "seq" runs several calls through different windows on one screen without
+   resetting it and evaluates, for every step, [step_core_holds] on the screen observed
+   before and the screen observed after the step: no panic, New clamps, Origin() = sum of
+   the offsets, every cell that CHANGED lies in the clip of that step's window, SetCell /
+   SetStyle change exactly the cell at origin+offset iff it is in the clip (SetStyle keeps
+   the character found there), no glyph of a text helper outside the clip on constructed
+   windows.  A sequence on which the implementation agrees with the model at every step
+   satisfies it: the predicate cannot raise an alarm on code the model describes. *)
+Theorem C11_sequence_predicate_sound : forall c : scase,
+  0 <= q_cols c -> 0 <= q_rows c -> scase_agrees c = true -> scase_core_holds c = true.
+Proof. exact scase_agrees_core_holds. Qed.
+Print Assumptions C11_sequence_predicate_sound.
+
 (* ---------------------------------------------------------------- non-vacuity *)
 
 Example C11_example_case :
@@ -358,3 +410,24 @@ Proof.
   cbn zeta. split; [apply bg_screen_WF; lia|]. split; [reflexivity|].
   vm_compute. eexists; eexists; split; [reflexivity|split; reflexivity].
 Qed.
+
+(* a sequence: Println of "ab" + wide + "cd" through the root of a 6x1 screen, then a window
+   whose left edge (column 3) cuts the wide cluster (columns 2-3), then SetCell at its column
+   0: the model agrees with this observation and the step predicate holds; had the cell at
+   column 2 (outside the second window) been blanked as well, the predicate would fail *)
+Example C11_example_sequence :
+  let bg := mkCell [46] 1 99 in
+  let line := [(0, 0, mkCell [97] 1 2); (1, 0, mkCell [98] 1 2); (2, 0, mkCell [19990] 2 2);
+               (4, 0, mkCell [99] 1 2); (5, 0, mkCell [100] 1 2)] in
+  let st1 := ((None, []), OPrintln 0 [([([97], 1); ([98], 1); ([19990], 2); ([99], 1); ([100], 1)], 2)],
+              mkObs 0 [mkFrame 0 0 6 1] (0, 0) line (0, 0)) in
+  let win2 := (None, [(true, (3, 0, 3, 1))]) in
+  let good := [(0, 0, mkCell [97] 1 2); (1, 0, mkCell [98] 1 2); (2, 0, mkCell [19990] 2 2);
+               (3, 0, mkCell [120] 1 5); (4, 0, mkCell [99] 1 2); (5, 0, mkCell [100] 1 2)] in
+  let bad := [(0, 0, mkCell [97] 1 2); (1, 0, mkCell [98] 1 2); (2, 0, mkCell [32] 1 2);
+              (3, 0, mkCell [120] 1 5); (4, 0, mkCell [99] 1 2); (5, 0, mkCell [100] 1 2)] in
+  let mk d := mkSCase 6 1 bg false [([97], (1, false)); ([98], (1, false)); ([19990], (2, false)); ([99], (1, false)); ([100], (1, false))]
+                [st1; (win2, OSetCell 0 0 (mkCell [120] 1 5), mkObs 0 [mkFrame 3 0 3 1; mkFrame 0 0 6 1] (3, 0) d (0, 0))] in
+  scase_agrees (mk good) = true /\ scase_holds (mk good) = true /\
+  scase_agrees (mk bad) = false /\ scase_core_holds (mk bad) = false.
+Proof. vm_compute. repeat split; reflexivity. Qed.
